@@ -147,14 +147,30 @@ def audit_tokens():
   return hits
 
 
+def props_modules(prop_id):
+  """Props/<id>.lean plus its extension files Props/<id><Suffix>.lean (e.g. C04Hlbe, C05Pre,
+  C02S, C11Primes): all of them carry property theorems of <id> and are audited together."""
+  d = os.path.join(LEAN, 'ParanoidModel', 'Props')
+  mods = []
+  for f in sorted(os.listdir(d)):
+    if f.endswith('.lean') and f.startswith(prop_id) and (
+        f == prop_id + '.lean' or not f[len(prop_id)].isdigit()):
+      mods.append(f[:-5])
+  return mods
+
+
 def theorem_names(prop_id):
-  """Names of the theorems declared in Props/<id>.lean (the obligations)."""
-  p = os.path.join(LEAN, 'ParanoidModel', 'Props', prop_id + '.lean')
-  src = strip_comments(open(p).read())
-  ns = re.findall(r'^namespace\s+([\w.]+)', src, re.M)
-  prefix = (ns[0] + '.') if ns else ''
-  names = re.findall(r'^\s*(?:protected\s+|private\s+)?theorem\s+([\w.\']+)', src, re.M)
-  return [prefix + n for n in names], p
+  """Names of the theorems declared in Props/<id>*.lean (the obligations)."""
+  names = []
+  path = os.path.join(LEAN, 'ParanoidModel', 'Props', prop_id + '.lean')
+  for mod in props_modules(prop_id):
+    p = os.path.join(LEAN, 'ParanoidModel', 'Props', mod + '.lean')
+    src = strip_comments(open(p).read())
+    ns = re.findall(r'^namespace\s+([\w.]+)', src, re.M)
+    prefix = (ns[0] + '.') if ns else ''
+    found = re.findall(r'^\s*(?:protected\s+|private\s+)?theorem\s+([\w.\']+)', src, re.M)
+    names += [prefix + n for n in found]
+  return names, path
 
 
 def audit_axioms(prop_id):
@@ -180,7 +196,8 @@ def audit_axioms(prop_id):
       pass
   tmp = os.path.join(BUILD, 'Audit_%s.lean' % prop_id)
   with open(tmp, 'w') as f:
-    f.write('import ParanoidModel.Props.%s\n' % prop_id)
+    for mod in props_modules(prop_id):
+      f.write('import ParanoidModel.Props.%s\n' % mod)
     for n in names:
       f.write('#print axioms %s\n' % n)
   with Lock('lake'):
